@@ -517,4 +517,33 @@ theorem open_default_profile (st : Store C I) (m : Option Method) (pass : PassKe
   simpa using hp
 
 
+
+/-! ### a toy instance of the primitives (non-vacuity of `Crypto.Laws`) -/
+
+/-- keys are numbers, a blob remembers the key it was sealed under -/
+abbrev Crypto.toy : Crypto where
+  Key := Nat
+  PK := Nat
+  Blob := Option Nat × Nat
+  kdf l p s := (match l with | .interactive => 1 | .moderate => 2) + 3 * (p.length + s.length)
+  rawKey s := if s.length = 44 then some s.length else none
+  wrapPk sk _ pk := (sk, pk)
+  loadPk sk b := if sk = b.1 then .ok b.2 else .error .encryption
+
+theorem Crypto.toy_laws : Crypto.toy.Laws where
+  load_wrap := by intro sk n pk; show (if sk = sk then Except.ok pk else Except.error Err.encryption) = Except.ok pk; simp
+  ideal := by
+    intro sk sk' n pk pk' h
+    have h' : (if sk' = sk then Except.ok pk else Except.error Err.encryption) = (Except.ok pk' : Except Err Nat) := h
+    by_cases e : sk' = sk
+    · exact e
+    · rw [if_neg e] at h'; cases h'
+
+def Crypto.toyRnd : Rnd Crypto.toy where
+  salt := List.replicate 16 7
+  key := (99 : Nat)
+  pk := (5 : Nat)
+  nonce := fun _ => []
+  profileName := [0x75]
+
 end Askar.Keys
